@@ -38,6 +38,8 @@ def coq_strs(l):
 
 
 def coq_ostrs(l):
+    if isinstance(l, str):
+        l = [l]  # the API turns a single name into a one-element list
     return "None" if l is None else f"(Some {coq_strs(l)})"
 
 
@@ -210,7 +212,7 @@ def rand_pred(rng, tb, cols):
     col = tb["cols"][tb["header"].index(sel[i])]
     if col:
         choices.append(["eqc", i, rng.choice(col)])
-    choices.append(["eqc", i, rng.choice([1, "a", True, None, 0])])
+    choices.append(["eqc", i, rng.choice([1, "a", True, None, 0, False, ""])])
     if len(sel) > 1:
         choices.append(["eqcols", 0, rng.randrange(1, len(sel))])
     p = rng.choice(choices)
@@ -253,11 +255,7 @@ def rand_sort_op(rng, tb, allow_prefix=False):
     sortable = [c for c in header if kinds[c] in "iUbf"]
     if not sortable or not tb["cols"] or not tb["cols"][0]:
         return None
-    revable = [c for c in sortable if kinds[c] in "iUf"]
-    if not allow_prefix:
-        # steer away from the reverse-translation finding in the random block: a reversed
-        # string column must be prefix-free and latin-1
-        revable = [c for c in revable if kinds[c] in "if" or prefix_free_latin1(tb["cols"][header.index(c)])]
+    revable = list(sortable)  # int, float, str (prefixes included), bool
     w = rng.random()
     if w < 0.3 and set(sortable) == set(header):
         columns = None
@@ -443,24 +441,101 @@ def exhaustive_join_block(tier):
     return cases
 
 
+SORT_ARGS = None
+
+
+def sort_arg_combos():
+    """(columns, reverse) combinations over the key columns x (int), y (str), z (bool): every column type in
+    reverse= alone and combined, as the only key and as one key of a multi-key sort, reverse inside /
+    disjoint from / instead of columns"""
+    global SORT_ARGS
+    if SORT_ARGS is None:
+        out = []
+        def subsets(l):
+            return [list(c) for k in range(len(l) + 1) for c in itertools.combinations(l, k)]
+        for cols in (["x"], ["y"], ["z"], ["x", "y"], ["y", "z"], ["z", "x"], ["z", "y", "x"], ["x", "y", "z"]):
+            for rev in subsets(cols):
+                out.append((cols, rev or None))
+        for rev in (["x"], ["y"], ["z"], ["z", "x"], ["y", "z"], ["x", "y"], ["z", "y", "x"]):
+            out.append((None, rev))                      # reverse only: it becomes the column list
+        out += [(["x"], ["z"]), (["y"], ["z"]), (["z"], ["x"]), (["z"], ["y", "x"]), (["x"], "z"), ("z", None), ("z", "z")]
+        SORT_ARGS = out
+    return SORT_ARGS
+
+
 def exhaustive_sort_block(tier):
-    """every table of 1..N rows over {0,1} x {"a","b"} (prefix-free) with a row-id column, every
-    columns/reverse combination over the two key columns"""
-    N = 3 if tier == "quick" else 4
-    cells = list(itertools.product([0, 1], ["a", "b"]))
-    args = [(None, None), (["x"], None), (["y"], None), (["x", "y"], None), (["y", "x"], None), (None, ["x"]), (None, ["y"]),
-            (["x", "y"], ["x"]), (["x", "y"], ["y"]), (["x", "y"], ["x", "y"]), (["y", "x"], ["x"]), (["x"], ["y"]),
-            (["y"], ["x"]), (None, ["y", "x"])]
+    """every table of 1..N rows over {0,1} x {"a","ab"} x {False,True} (a proper-prefix pair included) with a
+    row-id column, against the (columns, reverse) combinations of sort_arg_combos; plus float keys
+    (oracle only, the model has no float cell)"""
+    cells = list(itertools.product([0, 1], ["a", "ab"], [False, True]))
+    args = sort_arg_combos()
     cases = []
-    for n in range(1, N + 1):
+
+    def add(rows, k):
+        n = len(rows)
+        tb = dict(header=["x", "y", "z", "id"], cols=[[r[0] for r in rows], [r[1] for r in rows], [r[2] for r in rows], list(range(n))])
+        c, r = args[k % len(args)]
+        cases.append(dict(kind="ops", tables=[tb], ops=[dict(op="sorted", columns=c, reverse=r)], block="exh-sort"))
+
+    k = 0
+    for n in (1, 2):
         for rows in itertools.product(cells, repeat=n):
-            tb = dict(header=["x", "y", "id"], cols=[[r[0] for r in rows], [r[1] for r in rows], list(range(n))])
-            for k, (c, r) in enumerate(args):
-                if c is None and r is None:
-                    continue  # all columns incl. id: no ties; covered by the random block
-                if tier == "quick" and n == N and (len(cases) + k) % 3:
-                    continue
-                cases.append(dict(kind="ops", tables=[tb], ops=[dict(op="sorted", columns=c, reverse=r)], block="exh-sort"))
+            step = (3 if n == 2 else 2) if tier == "quick" else 1
+            for a in range(0, len(args), step):
+                add(rows, a + (k % step))
+            k += 1
+    tables3 = list(itertools.product(cells, repeat=3))
+    stride, per = (8, 5) if tier == "quick" else (1, 9)
+    for t_i, rows in enumerate(tables3[::stride]):
+        for a in range(per):
+            add(rows, t_i * per + a)
+    if tier != "quick":
+        rng = random.Random(4)
+        for _ in range(1500):
+            add([rng.choice(cells) for _ in range(4)], rng.randrange(len(args)))
+    # float keys (and float x bool), oracle only
+    fvals = [0.5, -1.25, 2.0]
+    fargs = [(["f"], None), (["f"], ["f"]), (None, ["f"]), (["z", "f"], ["f"]), (["z", "f"], ["z"]), (["f", "z"], ["z", "f"]), (["z"], ["f"])]
+    frows = list(itertools.product(itertools.product(fvals, [False, True]), repeat=3))
+    for t_i, rows in enumerate(frows[::(7 if tier == "quick" else 1)]):
+        c, r = fargs[t_i % len(fargs)]
+        tb = dict(header=["f", "z", "id"], cols=[[x[0] for x in rows], [x[1] for x in rows], [0, 1, 2]])
+        cases.append(dict(kind="ops", tables=[tb], ops=[dict(op="sorted", columns=c, reverse=r)], block="exh-sort-float"))
+    return cases
+
+
+def exhaustive_types_block(tier):
+    """one fixed table holding a column of every dtype (int, str with the empty string, bool, int-with-None,
+    mixed objects with 1 / True / "1" / None / 0 / False): filtered / count with an equality test against
+    every probe value on every column, distinct_values of every column and column pair, joins on every pair of
+    key columns of the two tables (int against bool keys: True == 1, None keys, empty-string keys)"""
+    t0 = dict(header=["i", "s", "b", "n", "m", "id"],
+              cols=[[1, 0, 1, 2, 0, 1], ["", "a", "", "ab", "a", "b"], [True, False, True, True, False, False],
+                    [None, 1, None, 0, 1, None], [1, True, "1", None, 0, False], [0, 1, 2, 3, 4, 5]])
+    t1 = dict(header=["i", "s", "b", "n", "m", "q"],
+              cols=[[0, 1, 1, 3], ["a", "", "b", ""], [False, True, True, False], [1, None, 0, None], [True, None, "1", 0],
+                    [10, 11, 12, 13]])
+    keys = ["i", "s", "b", "n", "m"]
+    probes = [1, 0, True, False, "", None, "a", "1", 2]
+    mkc = lambda ops: dict(kind="ops", tables=[t0, t1], ops=ops, block="exh-types")
+    cases = []
+    for c in keys:
+        for v in probes:
+            cases.append(mkc([dict(op="filtered", pred=["eqc", 0, v], columns=[c]),
+                              dict(op="count", pred=["not", ["eqc", 0, v]], columns=[c])]))
+            cases.append(mkc([dict(op="count", pred=["eqc", 0, v], columns=[c])]))
+        cases.append(mkc([dict(op="distinct", columns=[c])]))
+        cases.append(mkc([dict(op="filtered_by_column", cell=probes[keys.index(c)])]))
+    for a, b in itertools.permutations(keys, 2):
+        cases.append(mkc([dict(op="distinct", columns=[a, b])]))
+        cases.append(mkc([dict(op="filtered", pred=["eqcols", 0, 1], columns=[a, b])]))
+    for a in keys:
+        for b in keys:
+            cases.append(mkc([dict(op="join", other=1, cs=[a], co=[b], inner=True, prefix="r_")]))
+    for a, b in (("i", "b"), ("b", "i"), ("n", "m"), ("s", "m"), ("i", "s")):
+        cases.append(mkc([dict(op="join", other=1, cs=[a, b], co=[a, b], inner=True, prefix="r_")]))
+        cases.append(mkc([dict(op="join", other=1, cs=[a, b], co=[b, a], inner=True, prefix="r_")]))
+    cases.append(mkc([dict(op="join", other=1, cs=None, co=None, inner=True, prefix="r_")]))
     return cases
 
 
@@ -541,13 +616,13 @@ def corpus_cases():
     rng = random.Random(20)
     rows40 = [[rng.randint(0, 2), i] for i in range(40)]
     return [
-        # reverse sort of a string column through character translation: proper prefixes keep ascending order
+        # (repaired) reverse sort of a string column with a proper-prefix pair
         dict(kind="ops", block="corpus", tables=[dict(header=["a", "b"], cols=[["a", "ab", "b"], [1, 2, 3]])],
              ops=[dict(op="sorted", columns=None, reverse=["a"])]),
-        # numpy's default argsort is not stable beyond 16 rows
+        # (repaired) stability beyond 16 rows
         dict(kind="ops", block="corpus", tables=[dict(header=["k", "i"], cols=[[r[0] for r in rows40], [r[1] for r in rows40]])],
              ops=[dict(op="sorted", columns=["k"], reverse=None)]),
-        # cross join with a table without rows
+        # (repaired) cross join with a table without rows
         dict(kind="ops", block="corpus", tables=[dict(header=["a"], cols=[[1, 2]]), dict(header=["b"], cols=[[]])],
              ops=[dict(op="join", other=1, cs=None, co=None, inner=False, prefix="right_")]),
         # delimited round trip of a table without rows
@@ -607,10 +682,10 @@ def homogeneous(vals):
     return len({type(v) for v in vals}) <= 1 and all(isinstance(v, (int, str, bool, float)) for v in vals)
 
 
-def sort_spec(header, rows, columns, reverse, trick=False, kinds=None):
-    """stable sort by the key tuple with per-column reversal.  trick=True orders reversed string
-    columns the way character translation does (used only to CLASSIFY a deviation)."""
-    reverse = reverse or []
+def resolve_sort_columns(header, columns, reverse):
+    """documented resolution of the two arguments; None where the call is invalid"""
+    reverse = [reverse] if isinstance(reverse, str) else list(reverse or [])
+    columns = [columns] if isinstance(columns, str) else columns
     if reverse and columns is None:
         columns = list(reverse)
     if columns is None:
@@ -622,6 +697,16 @@ def sort_spec(header, rows, columns, reverse, trick=False, kinds=None):
         return None
     if len(set(reverse)) != len(reverse):
         return None
+    return columns, reverse
+
+
+def sort_spec(header, rows, columns, reverse, kinds=None):
+    """stable sort by the key tuple with per-column reversal (ints / floats by value, strings by code
+    point, False < True)"""
+    res = resolve_sort_columns(header, columns, reverse)
+    if res is None:
+        return None
+    columns, reverse = res
     if kinds is not None and any(kinds[header.index(c)] == "O" for c in columns):
         return None  # numpy object columns: comparison / reversal is whatever the objects support
     out = list(rows)
@@ -630,12 +715,7 @@ def sort_spec(header, rows, columns, reverse, trick=False, kinds=None):
         vals = [r[j] for r in rows]
         if not homogeneous(vals):
             return None
-        if c in reverse and vals and isinstance(vals[0], bool):
-            return None
-        if c in reverse and trick and vals and isinstance(vals[0], str):
-            out.sort(key=lambda r: "".join(chr(255 - ord(ch)) if ord(ch) < 256 else ch for ch in r[j]))
-        else:
-            out.sort(key=lambda r: r[j], reverse=c in reverse)
+        out.sort(key=lambda r: r[j], reverse=c in reverse)
     return out
 
 
@@ -772,17 +852,10 @@ def _same_type(a, b):
 
 
 def in_refuted_region(o, cur, tables):
-    """inputs on which the faithful model is PROVED to violate the specification (the `_refuted` theorems of
-    Properties/C20.v): there an implementation that agrees with the specification is accepted without
-    consulting the model (the code has been repaired), and one that does not is a violation anyway."""
-    if o["op"] == "join" and not o["inner"]:
-        return not rows_of(cur) or not rows_of(tables[o["other"]])
-    if o["op"] == "sorted" and o["reverse"]:
-        for c in o["reverse"]:
-            if c in cur["header"]:
-                col = cur["cols"][cur["header"].index(c)]
-                if col and all(isinstance(x, str) for x in col) and not prefix_free_latin1(col):
-                    return True
+    """inputs on which the faithful model is PROVED to violate the specification (`_refuted` theorems of
+    Properties/C20.v).  For table operations there is none left (the reverse-sort and cross-join defects
+    were repaired and the model follows the repaired code); the carriage-return region of the delimited
+    round trip is handled in compare_rt."""
     return False
 
 
@@ -793,6 +866,39 @@ def _decode_obs(v):
     if isinstance(v, list):
         return [_decode_obs(x) for x in v]
     return v
+
+
+def op_dtype_keys(o, cur, tables):
+    """which column dtypes (numpy kind letters: i int, f float, U str, b bool, O object = None/mixed) an
+    operation was exercised on -- measured, printed into the evidence"""
+    header = cur["header"]
+    kinds = cur.get("kinds") or [kind_of(col) for col in cur["cols"]]
+    kd = dict(zip(header, kinds))
+    k = o["op"]
+    out = []
+    if k == "sorted":
+        res = resolve_sort_columns(header, o["columns"], o["reverse"])
+        if res:
+            cols, rev = res
+            for c in cols:
+                out.append(f"sorted:{kd.get(c)}:{'reverse' if c in rev else 'ascending'}:{'single' if len(cols) == 1 else 'multikey'}")
+    elif k == "join":
+        other = tables[o["other"]]
+        if not o["inner"]:
+            out.append("cross_join:" + ("empty" if not rows_of(cur) or not rows_of(other) else "rows"))
+        else:
+            ks, ko = join_key_names(header, other["header"], o["cs"], o["co"])
+            okd = dict(zip(other["header"], [kind_of(col) for col in other["cols"]]))
+            for a, b in zip(ks or [], ko or []):
+                out.append(f"join:key:{kd.get(a)}={okd.get(b)}")
+    elif k in ("filtered", "count", "with_new_column", "get_columns", "distinct"):
+        cols = o.get("columns") if o.get("columns") is not None else header
+        for c in cols:
+            out.append(f"{k}:{kd.get(c)}")
+    elif k in ("appended", "transposed", "filtered_by_column"):
+        for c in header:
+            out.append(f"{k}:{kd.get(c)}")
+    return out
 
 
 def strip_kinds(v):
@@ -820,13 +926,9 @@ def classify_ops(o, cur, tables, obs, exp):
             return "sorted:raises"
         header, rows = cur["header"], rows_of(cur)
         got = rows_of(dict(header=obs[0], cols=obs[1]))
-        trick = sort_spec(header, rows, o["columns"], o["reverse"], trick=True)
-        if trick is not None and got == trick:
-            return "sorted:reverse-str-translation"
         exp_rows = rows_of(exp)
         # same multiset and same key sequence => only ties were reordered
-        cols = o["columns"] if o["columns"] is not None else (o["reverse"] or header)
-        cols = list(cols) + [c for c in (o["reverse"] or []) if c not in cols]
+        cols = resolve_sort_columns(header, o["columns"], o["reverse"])[0]
         idx = [header.index(c) for c in cols]
         if sorted(map(repr, got)) == sorted(map(repr, exp_rows)) and \
                 [[r[i] for i in idx] for r in got] == [[r[i] for i in idx] for r in exp_rows]:
@@ -847,8 +949,12 @@ def compare_ops(rep, c, ir, mr, stats):
         if i >= len(ir):
             break
         obs = _decode_obs(ir[i])
+        if o["op"] == "distinct" and isinstance(obs, list):
+            obs = sorted(obs, key=repr)  # canonical order after floats are decoded
         stats["steps"] += 1
         stats["ops"][o["op"]] = stats["ops"].get(o["op"], 0) + 1
+        for dk in op_dtype_keys(o, cur, tables):
+            stats.setdefault("op_dtype", {})[dk] = stats.get("op_dtype", {}).get(dk, 0) + 1
         exp = oracle_step(o, cur, tables)
         if mr is not None and i >= len(mr):
             mr = None  # the model stopped at an error the implementation (legitimately, see below) did not have
@@ -1070,7 +1176,7 @@ def model_ok_for(c):
 
 def build_cases(tier, rng):
     cases = corpus_cases() + error_cases()
-    cases += exhaustive_join_block(tier) + exhaustive_sort_block(tier) + exhaustive_rt_block(tier)
+    cases += exhaustive_join_block(tier) + exhaustive_sort_block(tier) + exhaustive_types_block(tier) + exhaustive_rt_block(tier)
     n_ops = 700 if tier == "quick" else 9000
     n_rt = 250 if tier == "quick" else 3000
     cases += [random_ops_case(rng) for _ in range(n_ops)]
@@ -1084,7 +1190,7 @@ def run(tier: str, seed: int) -> int:
     pr = core.proof_stage(PROP, COQ_TARGETS)
     core.proof_coverage(rep, pr, "make theories/Properties/C20.vo && coqc gen/assum_C20.v (Print Assumptions)", [
         "numpy: array construction / dtype inference (cast_to_array), fancy and boolean indexing, record-array argsort "
-        "(modelled as a stable insertion sort; numpy's introsort is one only for short arrays), numpy.vectorize",
+        "(kind='stable', modelled as a stable insertion sort), numpy.unique inverse index (modelled as the rank among distinct values), numpy.vectorize",
         "Python's csv module (writer QUOTE_MINIMAL, reader state machine) and text-mode universal newlines: re-modelled in "
         "Model/Csv.v from CPython 3.12 _csv.c and compared on file text and parsed records",
         "type inference on load (cast_str_to_array: astype int/float/complex, eval fallback), gzip, json, pickle: compared, not modelled",
@@ -1092,7 +1198,7 @@ def run(tier: str, seed: int) -> int:
     ])
     rep.assumptions += [
         "theorems about tables assume a well-formed column store (equal column lengths = nrows, distinct stripped column names, index_name None)",
-        "sorting theorems: key columns homogeneous int/str/bool (numpy raises or is not modelled otherwise), at least one row",
+        "sorting theorem: key columns homogeneous int/str/bool (object-dtype columns are not modelled), no name twice in reverse=, at least one row",
         "csv round-trip theorem: no '\\r' in any cell, delimiter not one of quote/LF/CR, every record has >= 1 field",
     ]
     proof_broken = bool(pr["problems"])
@@ -1142,7 +1248,8 @@ def run(tier: str, seed: int) -> int:
         samples=[dict(case=cases[sample_i], impl=impl[sample_i])],
         input_distribution=dict(cases=len(cases), blocks=blocks, ops=stats["ops"], oracle_applied=stats["oracle_applied"],
                                 not_modelled_steps=stats["not_modelled"], modelled_cases=len(midx),
-                                refuted_region_repaired=stats.get("refuted_region_repaired", 0)),
+                                refuted_region_repaired=stats.get("refuted_region_repaired", 0),
+                                op_x_dtype=dict(sorted(stats.get("op_dtype", {}).items()))),
         model_impl_disagreements=len(disagreements), spec_violations=stats["spec_violations"],
         partial=PARTIAL, exhaustive=False,
     )
@@ -1154,7 +1261,7 @@ def run(tier: str, seed: int) -> int:
 PARTIAL = [
     "type inference on load (cast_str_to_array) and float formatting: compared by correspondence, no theorem",
     "compressed / JSON / pickle round trips: compared by correspondence, no theorem",
-    "stability of the real numpy argsort: the model sorts stably; the code's instability beyond 16 rows is reported by the oracle",
+    "sorted with a name listed twice in reverse=, and object-dtype (None / mixed) key columns: outside the sort theorem (compared / skipped)",
     "index_name handling, title/legend rows in delimited files, float cells: not modelled",
 ]
 
